@@ -2,6 +2,7 @@ SPECIFICATION TSpec
 INVARIANT C07_OnePerDatum
 INVARIANT C07_DotsAtTrueTime
 INVARIANT C07_OnAxis
+INVARIANT C07_DotsOnAxisSegment
 INVARIANT C07_TicksOnLine
 INVARIANT C07_LinkShape
 INVARIANT C07_BoxSize
